@@ -64,13 +64,14 @@ Qed.
 
 (* the round trip at PathMatches level *)
 Theorem reverse_match_roundtrip pm args u :
+  pm_whole pm = true ->
   spec_url (rx_pieces (pm_rx pm)) args = Some u ->
   Forall bytes args ->
   representable (rx_pieces (pm_rx pm)) args ->
   (forall caps', pmatch (rx_pieces (pm_rx pm)) u caps' -> caps' = map quote_arg args) ->
   pm_match pm u = MHit args.
 Proof.
-  intros Hu Hb Hr Huniq. unfold pm_match.
+  intros Hw Hu Hb Hr Huniq. unfold pm_match, pm_caps. rewrite Hw.
   rewrite (whole_match_unique (pm_rx pm) u (map quote_arg args)).
   - rewrite map_opt_unq_quote by exact Hb. reflexivity.
   - apply spec_url_pmatch; assumption.
@@ -146,12 +147,13 @@ Qed.
 
 (* the round trip under the syntactic criterion *)
 Theorem reverse_match_roundtrip_sep pm args u :
+  pm_whole pm = true ->
   spec_url (rx_pieces (pm_rx pm)) args = Some u ->
   Forall bytes args ->
   representable (rx_pieces (pm_rx pm)) args ->
   sep_ok (rx_pieces (pm_rx pm)) ->
   pm_match pm u = MHit args.
 Proof.
-  intros Hu Hb Hr Hs. apply reverse_match_roundtrip; try assumption.
+  intros Hw Hu Hb Hr Hs. apply reverse_match_roundtrip; try assumption.
   apply sep_ok_unique; assumption.
 Qed.
